@@ -267,11 +267,14 @@ class CodeGenerator(abc.ABC):
             if not remove_unused or self._condition(state.name)
         )
 
-    def _parameter_assignments(self, parameters: sympy.IndexedBase) -> str:
+    def _parameter_assignments(
+        self, parameters: sympy.IndexedBase, always: typing.Container[str] = ()
+    ) -> str:
+        # Parameters listed in `always` are assigned even if no expression uses them
         return "\n".join(
             self._doprint(param.symbol, parameters[i], use_variable_prefix=True)
             for i, param in enumerate(self.ode.parameters)
-            if self._condition(param.name)
+            if self._condition(param.name) or param.name in always
         )
 
     def _missing_variables_assignments(self):
@@ -420,7 +423,8 @@ class CodeGenerator(abc.ABC):
     ) -> str:
         rhs = self._rhs_arguments(order)
         states = self._state_assignments(rhs.states, remove_unused=False)
-        parameters = self._parameter_assignments(rhs.parameters)
+        # A requested parameter is read by the function even if no expression uses it
+        parameters = self._parameter_assignments(rhs.parameters, always=values)
         missing_variables = self._missing_variables_assignments()
 
         arguments = rhs.arguments
